@@ -5,7 +5,9 @@
 // Reads the configuration matrix enumerated by TLC (VERIF_IN, one abstract case per line),
 // builds for every case a REAL mcp.Server and mcp.Client, connects them over the transport
 // the case names (in-memory, io pipes, SSE handler, streamable HTTP handler stateful /
-// stateless, with / without JSON responses and event store), and records
+// stateful without session ids (ServerOptions.GetSessionID returning "") / stateless, with /
+// without JSON responses and event store; optionally after an earlier connection to the SAME
+// Server through a second streamable handler of the other kind), and records
 //   - the outcome of Client.Connect (error, or InitializeResult().ProtocolVersion),
 //   - the methods the client sent while connecting (sending middleware),
 //   - the results of ListTools and CallTool issued immediately afterwards
@@ -49,6 +51,7 @@ type c07Case struct {
 	Wrap  bool     `json:"wrap"`
 	Adv   []string `json:"adv"`
 	Disc  string   `json:"disc"`
+	Prior string   `json:"prior"` // none | stateless | stateful: earlier connection to the same Server
 }
 
 type c07Real struct {
@@ -60,6 +63,7 @@ type c07Real struct {
 	CallOK   bool     `json:"callOK"`
 	Methods  []string `json:"methods"` // sent by the client during Connect
 	Err      string   `json:"err"`     // Connect / ListTools / CallTool error text (information only)
+	PriorVer string   `json:"priorVersion"` // what the earlier connection negotiated (information only)
 }
 
 type c07Line struct {
@@ -194,7 +198,12 @@ func c07Run(t *testing.T, r *rand.Rand, c c07Case, rep int) c07Line {
 	line.Listen = rep > 0 && r.IntN(2) == 0
 
 	// --- server
-	server := mcp.NewServer(&mcp.Implementation{Name: "c07-server", Version: "v1"}, nil)
+	var sopts *mcp.ServerOptions
+	if c.Tr == "statefulnosid" {
+		// the documented way to run a stateful handler without Mcp-Session-Id
+		sopts = &mcp.ServerOptions{GetSessionID: func() string { return "" }}
+	}
+	server := mcp.NewServer(&mcp.Implementation{Name: "c07-server", Version: "v1"}, sopts)
 	for _, name := range tools {
 		name := name
 		mcp.AddTool(server, &mcp.Tool{Name: name, Description: "echo"},
@@ -269,13 +278,33 @@ func c07Run(t *testing.T, r *rand.Rand, c c07Case, rep int) c07Line {
 	case "sse":
 		h := mcp.NewSSEHandler(getServer, nil)
 		ct = &mcp.SSEClientTransport{Endpoint: "http://c07.verif.test/sse", HTTPClient: &http.Client{Transport: &c07RT{h: h}}}
-	case "stateful", "stateless":
-		o := &mcp.StreamableHTTPOptions{Stateless: c.Tr == "stateless", JSONResponse: c.JSON}
-		if c.Store {
-			o.EventStore = mcp.NewMemoryEventStore(nil)
+	case "stateful", "statefulnosid", "stateless":
+		mk := func(stateless bool, url string) mcp.Transport {
+			o := &mcp.StreamableHTTPOptions{Stateless: stateless, JSONResponse: c.JSON}
+			if c.Store {
+				o.EventStore = mcp.NewMemoryEventStore(nil)
+			}
+			h := mcp.NewStreamableHTTPHandler(getServer, o)
+			return &mcp.StreamableClientTransport{Endpoint: url, HTTPClient: &http.Client{Transport: &c07RT{h: h}}}
 		}
-		h := mcp.NewStreamableHTTPHandler(getServer, o)
-		ct = &mcp.StreamableClientTransport{Endpoint: "http://c07.verif.test/mcp", HTTPClient: &http.Client{Transport: &c07RT{h: h}}}
+		if c.Prior != "none" && c.Prior != "" {
+			// One Server behind two endpoints: a default client uses the other endpoint first.
+			pt := mk(c.Prior == "stateless", "http://c07.verif.test/other")
+			pc := mcp.NewClient(&mcp.Implementation{Name: "c07-prior-client", Version: "v1"}, nil)
+			pctx, pcancel := context.WithTimeout(ctx, 30*time.Second)
+			pcs, perr := pc.Connect(pctx, pt, nil)
+			if perr != nil {
+				out.PriorVer = "error: " + perr.Error()
+			} else {
+				if ir := pcs.InitializeResult(); ir != nil {
+					out.PriorVer = ir.ProtocolVersion
+				}
+				pcs.ListTools(pctx, nil)
+				pcs.Close()
+			}
+			pcancel()
+		}
+		ct = mk(c.Tr == "stateless", "http://c07.verif.test/mcp")
 	default:
 		t.Fatalf("transport %q", c.Tr)
 	}
@@ -388,6 +417,9 @@ func TestVerif_C07(t *testing.T) {
 		}
 		if c.Adv == nil {
 			c.Adv = []string{}
+		}
+		if c.Prior == "" {
+			c.Prior = "none"
 		}
 		cases = append(cases, c)
 	}
